@@ -29,7 +29,7 @@ func (Prop) Assumptions() []string {
 }
 
 func (Prop) Plan(tier string) []lib.Workload {
-	n := 90
+	n := 60
 	if tier == "thorough" {
 		n = 8000
 	}
